@@ -171,7 +171,10 @@ def r4_resume_feeds_result(ctx):
         ok = takes[0][1]["dest"]["l"] in fl.backward({v["l"]}, through_calls=("Option::unwrap", "Result::unwrap", "Option::expect", "Result::expect"))
     ctx.check(ok, R, b.key + "|push-previous-result", "the pushed argument is the taken previous result", "resume no longer feeds the previous result to the new line", b.loc(0))
     fp = [(bi, t) for bi, t in b.calls_to("Vec::push") if fl0.canon_op(t["args"][0]) and fl0.ends_with_field(fl0.canon_op(t["args"][0]), "process::Process", "frames")]
-    ctx.check(len(fp) == 1 and bool(pushes) and b.dominates(pushes[0][0], fp[0][0]), R, b.key + "|frame-after-arg", "the new frame is pushed after its argument",
+    # order: the argument push lies before the frame push on every path that performs it (it may sit under an `if let Some(Ok(v)) = result.take()`
+    # that an earlier guard makes always true), and never after it
+    ctx.check(len(fp) == 1 and bool(pushes) and b.reaches(pushes[0][0], fp[0][0]) and not b.reaches(fp[0][0], pushes[0][0])
+              and b.dominates(takes[0][0] if takes else pushes[0][0], fp[0][0]), R, b.key + "|frame-after-arg", "the new frame is pushed after its argument",
               "frame/argument order changed in resume_process", b.loc(0))
 
 
